@@ -15,7 +15,9 @@ void vp_assume (bool c);
 void vp_assert (bool c, const char *id);   /* id must be a string literal */
 void vp_witness (const char *id);          /* expected reachable (vacuity guard) */
 void vp_cover (bool c, const char *id);    /* expected satisfiable */
-void vp_observe (uint64_t v);              /* no-op under CBMC; logged natively */
+void vp_observe (uint64_t v);
+uint64_t vp_range_lo (void);                /* scenario sub-range of this solver run (whole range natively) */
+uint64_t vp_range_hi (void);              /* no-op under CBMC; logged natively */
 void __vp_init (void);                     /* static initialisers of the lowered module */
 bool vp_exc_pending (void);                /* lowered code only: an exception escaped */
 void vp_exc_clear (void);
